@@ -168,10 +168,10 @@ def build_router(case: dict, trace: Trace, loop: vclock.VLoop, fn_tag: str = "",
                     if step[0] == "cb":
                         tag = step[1]
                         if step[2] == "sync":
-                            m.add_callback(lambda tag=tag: e.callbacks.append(("cb", tag)))
+                            m.add_callback(lambda tag=tag: e.callbacks.append(("cb", tag, next(trace.spy.seq))))
                         else:
                             async def _cb(tag: Any = tag) -> None:
-                                e.callbacks.append(("cb", tag))
+                                e.callbacks.append(("cb", tag, next(trace.spy.seq)))
                             m.add_callback(_cb)
                     elif step[0] == "result":
                         m.set_result(step[1])
@@ -181,7 +181,7 @@ def build_router(case: dict, trace: Trace, loop: vclock.VLoop, fn_tag: str = "",
                         try:
                             await m.retry()
                         except ValueError:
-                            e.callbacks.append(("retry-refused", None))
+                            e.callbacks.append(("retry-refused", None, next(trace.spy.seq)))
                 leave(e, "eager")
                 await getattr(m, o["action"])()
                 e.after_eager_marker = True
